@@ -233,6 +233,18 @@ func (fx *FuncVC) knownCall(fr *frame, fn *ssa.Function, name string, args []Val
 		return Sc{r, fn.Signature.Results().At(0).Type()}, true
 	case "sort.Search":
 		return fx.sortSearch(fr, args, pos), true
+	case "strings.Count":
+		// strings.Count(s, "\n") is the newline count of s (the theory behind the contract builtin newlines)
+		if s, ok := args[0].(StrV); ok && !fx.bv {
+			if sep, ok := args[1].(StrV); ok && fx.strLits["\n"].Base.S == sep.Base.S && sep.Base.S != "" {
+				fx.trusted["strings.Count(s, \"\\n\") is the number of newline bytes of s"] = true
+				return Sc{fx.newlinesTerm(s.Base, s.Off, Add(s.Off, s.Len)), types.Typ[types.Int]}, true
+			}
+		}
+		r := fx.fresh("count", fx.idxSort())
+		fx.assume(Le(fx.idx(0), r, true))
+		fx.note("result of strings.Count treated as an arbitrary non-negative integer (separator is not the literal \"\\n\")")
+		return Sc{r, types.Typ[types.Int]}, true
 	case "log.Printf", "log.Println", "log.Print", "fmt.Printf", "fmt.Println", "fmt.Print":
 		return fx.freshResultOrNil(fn), true
 	}
@@ -240,6 +252,34 @@ func (fx *FuncVC) knownCall(fr *frame, fn *ssa.Function, name string, args []Val
 		return fx.freshResultOrNil(fn), true
 	}
 	return nil, false
+}
+
+// newlinesTerm is nlabs(base, lo, hi): the number of newline bytes of string storage `base` at the
+// absolute positions lo..hi-1. Strings are immutable, so this is a function of the constant STR.
+// Working with absolute positions makes the count of a substring and the count of a range of the
+// enclosing string the same term. The theory is a fixed set of consequences of the recursive
+// definition (each one a textbook induction); it is part of the trusted base.
+func (fx *FuncVC) newlinesTerm(base, lo, hi T) T {
+	if _, ok := fx.declared["nlabs"]; !ok {
+		fx.declareFun("nlabs", []Sort{SInt, SInt, SInt}, SInt)
+		str := fx.strHeap().S
+		ax := []string{
+			// empty and reversed ranges, bounds
+			"(forall ((b? Int) (a? Int) (c? Int)) (! (and (<= 0 (nlabs b? a? c?)) (=> (<= c? a?) (= (nlabs b? a? c?) 0)) (=> (<= a? c?) (<= (nlabs b? a? c?) (- c? a?)))) :pattern ((nlabs b? a? c?))))",
+			// one byte
+			"(forall ((b? Int) (a? Int) (c? Int)) (! (=> (= c? (+ a? 1)) (= (nlabs b? a? c?) (ite (= (select (select " + str + " b?) a?) 10) 1 0))) :pattern ((nlabs b? a? c?))))",
+			// no newline byte in the range
+			"(forall ((b? Int) (a? Int) (c? Int)) (! (=> (forall ((j? Int)) (=> (and (<= a? j?) (< j? c?)) (not (= (select (select " + str + " b?) j?) 10)))) (= (nlabs b? a? c?) 0)) :pattern ((nlabs b? a? c?))))",
+			// additivity, for adjacent ranges and for two ranges with the same start
+			"(forall ((b? Int) (a? Int) (m? Int) (c? Int)) (! (=> (and (<= a? m?) (<= m? c?)) (= (nlabs b? a? c?) (+ (nlabs b? a? m?) (nlabs b? m? c?)))) :pattern ((nlabs b? a? m?) (nlabs b? m? c?))))",
+			"(forall ((b? Int) (a? Int) (m? Int) (c? Int)) (! (=> (and (<= a? m?) (<= m? c?)) (= (nlabs b? a? c?) (+ (nlabs b? a? m?) (nlabs b? m? c?)))) :pattern ((nlabs b? a? m?) (nlabs b? a? c?))))",
+		}
+		for _, a := range ax {
+			fx.assumeDef(T{a, SBool})
+		}
+		fx.trusted["theory of newline counting nlabs(s, lo, hi): non-negative and at most hi-lo, 0 on empty ranges and on ranges without a newline byte, one byte counts 1 iff it is '\\n', additive over adjacent ranges"] = true
+	}
+	return app("nlabs", SInt, base, lo, hi)
 }
 
 func (fx *FuncVC) freshResultOrNil(fn *ssa.Function) Val {
